@@ -331,25 +331,114 @@ int spec_prf_short(uint8_t *out, size_t outlen, const uint8_t *in, size_t inlen,
 
 void spec_hmac(int family, uint8_t out[32], const uint8_t *key, size_t keylen, const uint8_t *in, size_t inlen)
 {
+    /* H((K0 ^ opad) || H((K0 ^ ipad) || text)), K0 = key zero-padded to B, or
+     * H(key) zero-padded when the key is longer than B.  K0 is derived again
+     * before the outer hash (same value): that is the order in which the
+     * implementation evaluates the permutation. */
     uint8_t k0[64], inner[32];
     spec_sponge_t s;
-    unsigned i;
-    for (i = 0; i < 64; ++i) k0[i] = 0;
-    if (keylen > 64) {
-        spec_hash(family, k0, key, keylen);
-    } else {
-        for (i = 0; i < keylen; ++i) k0[i] = key[i];
+    unsigned i, pass;
+    for (pass = 0; pass < 2; ++pass) {
+        for (i = 0; i < 64; ++i) k0[i] = 0;
+        if (keylen > 64) {
+            spec_hash(family, k0, key, keylen);
+        } else {
+            for (i = 0; i < keylen; ++i) k0[i] = key[i];
+        }
+        for (i = 0; i < 64; ++i) k0[i] ^= pass == 0 ? 0x36 : 0x5c;
+        spec_xof_init(&s, family, 256, 0, 0);
+        spec_xof_absorb(&s, k0, 64);
+        if (pass == 0) {
+            spec_xof_absorb(&s, in, inlen);
+            spec_xof_squeeze(&s, inner, 32);
+        } else {
+            spec_xof_absorb(&s, inner, 32);
+            spec_xof_squeeze(&s, out, 32);
+        }
     }
-    for (i = 0; i < 64; ++i) k0[i] ^= 0x36;
-    spec_xof_init(&s, family, 256, 0, 0);
-    spec_xof_absorb(&s, k0, 64);
-    spec_xof_absorb(&s, in, inlen);
-    spec_xof_squeeze(&s, inner, 32);
-    for (i = 0; i < 64; ++i) k0[i] ^= 0x36 ^ 0x5c;
-    spec_xof_init(&s, family, 256, 0, 0);
-    spec_xof_absorb(&s, k0, 64);
-    spec_xof_absorb(&s, inner, 32);
-    spec_xof_squeeze(&s, out, 32);
+}
+
+/* ------------------------------------------------------------------ */
+/* HKDF (RFC 5869) over spec_hmac, HashLen = 32                         */
+
+int spec_hkdf(int family, uint8_t *out, size_t outlen, const uint8_t *ikm, size_t ikmlen,
+              const uint8_t *salt, size_t saltlen, const uint8_t *info, size_t infolen)
+{
+    uint8_t prk[32], t[32], msg[32 + SPEC_HKDF_MAX_INFO + 1];
+    size_t done = 0, n, i;
+    unsigned counter = 1;
+    if (outlen > 255 * 32)
+        return -1;
+    /* extract: PRK = HMAC(salt, IKM); an absent salt is HashLen zero bytes,
+     * which HMAC's zero padding makes identical to the empty key */
+    spec_hmac(family, prk, salt, saltlen, ikm, ikmlen);
+    /* expand: T(i) = HMAC(PRK, T(i-1) | info | i) */
+    while (done < outlen) {
+        n = 0;
+        if (counter > 1) for (i = 0; i < 32; ++i) msg[n++] = t[i];
+        for (i = 0; i < infolen; ++i) msg[n++] = info[i];
+        msg[n++] = (uint8_t)counter;
+        spec_hmac(family, t, prk, 32, msg, n);
+        for (i = 0; i < 32 && done < outlen; ++i) out[done++] = t[i];
+        ++counter;
+    }
+    return 0;
+}
+
+/* ------------------------------------------------------------------ */
+/* PBKDF2 (RFC 8018 section 5.2)                                       */
+
+void spec_pbkdf2(uint8_t *out, size_t outlen, const uint8_t *pw, size_t pwlen,
+                 const uint8_t *salt, size_t saltlen, unsigned long count)
+{
+    /* PRF(P, X) = cXOF("PBKDF2", customisation = P, 32-byte output)(X); the keyed
+     * initial state is computed once and copied (a deterministic function of P) */
+    uint8_t name[32], u[32], t[32], b[4];
+    spec_sponge_t base, s;
+    unsigned long blk = 1, c;
+    size_t done = 0, i;
+    spec_cxof_name_block(0, name, "PBKDF2", 6);
+    spec_xof_init(&base, 0, 256, name, 1);
+    spec_xof_custom(&base, pw, pwlen);
+    if (count == 0) count = 1;
+    while (done < outlen) {
+        b[0] = (uint8_t)(blk >> 24); b[1] = (uint8_t)(blk >> 16); b[2] = (uint8_t)(blk >> 8); b[3] = (uint8_t)blk;
+        s = base;
+        spec_xof_absorb(&s, salt, saltlen);
+        spec_xof_absorb(&s, b, 4);
+        spec_xof_squeeze(&s, u, 32);
+        for (i = 0; i < 32; ++i) t[i] = u[i];
+        for (c = 1; c < count; ++c) {
+            s = base;
+            spec_xof_absorb(&s, u, 32);
+            spec_xof_squeeze(&s, u, 32);
+            for (i = 0; i < 32; ++i) t[i] ^= u[i];
+        }
+        for (i = 0; i < 32 && done < outlen; ++i) out[done++] = t[i];
+        ++blk;
+    }
+}
+
+void spec_pbkdf2_hmac(uint8_t *out, size_t outlen, const uint8_t *pw, size_t pwlen,
+                      const uint8_t *salt, size_t saltlen, unsigned long count)
+{
+    uint8_t u[32], t[32], msg[SPEC_PBKDF2_MAX_SALT + 4];
+    unsigned long blk = 1, c;
+    size_t done = 0, i;
+    if (count == 0) count = 1;
+    while (done < outlen) {
+        for (i = 0; i < saltlen; ++i) msg[i] = salt[i];
+        msg[saltlen] = (uint8_t)(blk >> 24); msg[saltlen + 1] = (uint8_t)(blk >> 16);
+        msg[saltlen + 2] = (uint8_t)(blk >> 8); msg[saltlen + 3] = (uint8_t)blk;
+        spec_hmac(0, u, pw, pwlen, msg, saltlen + 4);
+        for (i = 0; i < 32; ++i) t[i] = u[i];
+        for (c = 1; c < count; ++c) {
+            spec_hmac(0, u, pw, pwlen, u, 32);
+            for (i = 0; i < 32; ++i) t[i] ^= u[i];
+        }
+        for (i = 0; i < 32 && done < outlen; ++i) out[done++] = t[i];
+        ++blk;
+    }
 }
 
 /* ------------------------------------------------------------------ */
